@@ -7,6 +7,7 @@ import itertools
 
 from mc import lib, pmodel, refmass, refdata, catalogue
 
+CASE_TIMEOUT_S = 300      # wall-clock horizon per state (states of this check bundle many sub-states; generous for loaded machines)
 PROPERTY = 'C12'
 RULE = ('full product of residue strings of length 1..L over {K,S,M,G} x rule sets (26 single rules: 13 target sets x 2-3 '
         'modification lists; 12 pairs of rules) x pre-existing modification on a targeted residue / terminus x ion types '
